@@ -32,22 +32,27 @@ Proof.
   - destruct (l_super l); [apply IH|constructor].
 Qed.
 
+Definition rec_free (h : hierarchy) : bool :=
+  forallb (fun l => match l_rec l with None => true | Some _ => false end) h.
+
 (* ---------- one call along the hierarchy ---------- *)
 Definition res_state (x : mstate * list event * status) : mstate := fst (fst x).
 Definition res_events (x : mstate * list event * status) : list event := snd (fst x).
 Definition res_status (x : mstate * list event * status) : status := snd x.
 
-Lemma chain_steps h : forall idx mid st args,
-  steps (res_state (call_chain h idx mid st args)) = steps st.
+Lemma chain_steps rec h : forall idx mid st args, rec_free h = true ->
+  steps (res_state (call_chain rec h idx mid st args)) = steps st.
 Proof.
-  unfold res_state. induction h as [|l t IH]; intros idx mid st args; simpl.
+  unfold res_state. induction h as [|l t IH]; intros idx mid st args Hrf; simpl.
   - destruct args; reflexivity.
-  - destruct (l_def l); [|apply IH].
+  - simpl in Hrf. apply andb_true_iff in Hrf. destruct Hrf as [Hl Hrf].
+    destruct (l_rec l); [discriminate|]. cbn [opt_is app].
+    destruct (l_def l); [|apply IH; exact Hrf].
     destruct (arity_ok l args); [|reflexivity].
     destruct (opt_is (l_raise l) (fun k => steps st =? k)); [reflexivity|].
     destruct (l_super l).
-    + specialize (IH (idx + 1) mid st (if l_fwd l then args else [])).
-      destruct (call_chain t (idx + 1) mid st (if l_fwd l then args else [])) as [[st1 evs] r].
+    + specialize (IH (idx + 1) mid st (if l_fwd l then args else []) Hrf).
+      destruct (call_chain rec t (idx + 1) mid st (if l_fwd l then args else [])) as [[st1 evs] r].
       cbn [fst] in IH. destruct r; cbn [fst]; try exact IH.
       destruct (opt_is (l_stop l) (fun k => steps st1 >=? k)); cbn [clear_running steps]; exact IH.
     + cbn [fst]. destruct (opt_is (l_stop l) (fun k => steps st >=? k)); reflexivity.
@@ -55,20 +60,22 @@ Qed.
 
 (* whatever happens, every body that runs sees the counter value the chain was entered with, belongs to this
    instance, and got the caller's arguments or none *)
-Lemma chain_events h : forall idx mid st args,
+Lemma chain_events rec h : forall idx mid st args, rec_free h = true ->
   Forall (fun e => e_seen e = steps st /\ e_inst e = mid /\ idx <= e_lvl e)
-         (res_events (call_chain h idx mid st args)).
+         (res_events (call_chain rec h idx mid st args)).
 Proof.
-  unfold res_events. induction h as [|l t IH]; intros idx mid st args; simpl.
+  unfold res_events. induction h as [|l t IH]; intros idx mid st args Hrf; simpl.
   - destruct args; constructor.
-  - destruct (l_def l).
-    2:{ eapply Forall_impl; [|apply IH]. intros e [H1 [H2 H3]]. repeat split; auto. lia. }
+  - simpl in Hrf. apply andb_true_iff in Hrf. destruct Hrf as [Hl Hrf].
+    destruct (l_rec l); [discriminate|]. cbn [opt_is app].
+    destruct (l_def l).
+    2:{ eapply Forall_impl; [|apply IH; exact Hrf]. intros e [H1 [H2 H3]]. repeat split; auto. lia. }
     destruct (arity_ok l args); [|constructor].
     destruct (opt_is (l_raise l) (fun k => steps st =? k)).
     { constructor; [|constructor]. simpl. repeat split; lia. }
     destruct (l_super l).
-    + specialize (IH (idx + 1) mid st (if l_fwd l then args else [])).
-      destruct (call_chain t (idx + 1) mid st (if l_fwd l then args else [])) as [[st1 evs] r].
+    + specialize (IH (idx + 1) mid st (if l_fwd l then args else []) Hrf).
+      destruct (call_chain rec t (idx + 1) mid st (if l_fwd l then args else [])) as [[st1 evs] r].
       cbn [fst snd] in IH.
       assert (Forall (fun e => e_seen e = steps st /\ e_inst e = mid /\ idx <= e_lvl e) evs) as IH'.
       { eapply Forall_impl; [|exact IH]. intros e [H1 [H2 H3]]. repeat split; auto. lia. }
@@ -77,33 +84,35 @@ Proof.
 Qed.
 
 (* the bodies run are a prefix of the super chain - all of it when the call returns normally *)
-Lemma chain_levels h : forall idx mid st args,
-  exists rest, super_chain h idx = map e_lvl (res_events (call_chain h idx mid st args)) ++ rest /\
-               (res_status (call_chain h idx mid st args) = Ok -> rest = []).
+Lemma chain_levels rec h : forall idx mid st args, rec_free h = true ->
+  exists rest, super_chain h idx = map e_lvl (res_events (call_chain rec h idx mid st args)) ++ rest /\
+               (res_status (call_chain rec h idx mid st args) = Ok -> rest = []).
 Proof.
-  unfold res_events, res_status. induction h as [|l t IH]; intros idx mid st args; simpl.
+  unfold res_events, res_status. induction h as [|l t IH]; intros idx mid st args Hrf; simpl.
   - exists []. destruct args; split; reflexivity.
-  - destruct (l_def l); [|apply IH].
+  - simpl in Hrf. apply andb_true_iff in Hrf. destruct Hrf as [Hl Hrf].
+    destruct (l_rec l); [discriminate|]. cbn [opt_is app].
+    destruct (l_def l); [|apply IH; exact Hrf].
     destruct (arity_ok l args).
     2:{ eexists. split; [reflexivity|]. simpl. discriminate. }
     destruct (opt_is (l_raise l) (fun k => steps st =? k)).
     { eexists. split; [reflexivity|]. simpl. discriminate. }
     destruct (l_super l).
-    + destruct (IH (idx + 1) mid st (if l_fwd l then args else [])) as [rest [H1 H2]].
-      destruct (call_chain t (idx + 1) mid st (if l_fwd l then args else [])) as [[st1 evs] r].
+    + destruct (IH (idx + 1) mid st (if l_fwd l then args else []) Hrf) as [rest [H1 H2]].
+      destruct (call_chain rec t (idx + 1) mid st (if l_fwd l then args else [])) as [[st1 evs] r].
       cbn [fst snd] in H1, H2. exists rest.
       destruct r; cbn [fst snd map app]; (split; [rewrite H1; reflexivity|]); try discriminate. exact H2.
     + cbn [fst snd map app]. exists []. split; reflexivity.
 Qed.
 
 (* the first body that runs is the one the MRO resolves, and it receives the caller's arguments unchanged *)
-Lemma chain_head h : forall idx mid st args i l,
+Lemma chain_head rec h : forall idx mid st args i l,
   resolve h idx = Some (i, l) ->
   if arity_ok l args then
-    exists e rest, res_events (call_chain h idx mid st args) = e :: rest /\
+    exists e rest, res_events (call_chain rec h idx mid st args) = e :: rest /\
       e_lvl e = i /\ e_args e = args /\ e_seen e = steps st /\ e_run e = running st /\ e_inst e = mid
-  else res_events (call_chain h idx mid st args) = [] /\ res_status (call_chain h idx mid st args) = ErrType
-       /\ res_state (call_chain h idx mid st args) = st.
+  else res_events (call_chain rec h idx mid st args) = [] /\ res_status (call_chain rec h idx mid st args) = ErrType
+       /\ res_state (call_chain rec h idx mid st args) = st.
 Proof.
   unfold res_events, res_status, res_state.
   induction h as [|l0 t IH]; intros idx mid st args i l Hr; simpl in Hr; [discriminate|].
@@ -111,34 +120,38 @@ Proof.
   - inversion Hr; subst i l. destruct (arity_ok l0 args); [|auto].
     destruct (opt_is (l_raise l0) (fun k => steps st =? k)).
     { eexists. eexists. split; [reflexivity|]. simpl. auto. }
-    destruct (if l_super l0 then call_chain t (idx + 1) mid st (if l_fwd l0 then args else []) else (st, [], Ok))
+    destruct (if opt_is (l_rec l0) (fun k => steps st <? k) then rec st else (st, [], Ok)) as [[st0 evr] rr].
+    destruct rr; try (cbn [fst snd]; eexists; eexists; (split; [reflexivity|]); simpl; auto).
+    destruct (if l_super l0 then call_chain rec t (idx + 1) mid st0 (if l_fwd l0 then args else []) else (st0, [], Ok))
       as [[st1 evs] r].
     destruct r; cbn [fst snd]; eexists; eexists; (split; [reflexivity|]); simpl; auto.
   - apply IH. exact Hr.
 Qed.
 
 (* no definer at all: Model.step runs, nothing is logged, arguments are refused *)
-Lemma chain_unresolved h : forall idx mid st args,
+Lemma chain_unresolved rec h : forall idx mid st args,
   resolve h idx = None ->
-  call_chain h idx mid st args = (st, [], match args with [] => Ok | _ => ErrType end).
+  call_chain rec h idx mid st args = (st, [], match args with [] => Ok | _ => ErrType end).
 Proof.
   induction h as [|l t IH]; intros idx mid st args Hr; simpl in *.
   - destruct args; reflexivity.
   - destruct (l_def l); [discriminate|]. apply IH. exact Hr.
 Qed.
 
-Lemma chain_args h : forall idx mid st args,
-  Forall (fun e => e_args e = args \/ e_args e = []) (res_events (call_chain h idx mid st args)).
+Lemma chain_args rec h : forall idx mid st args, rec_free h = true ->
+  Forall (fun e => e_args e = args \/ e_args e = []) (res_events (call_chain rec h idx mid st args)).
 Proof.
-  unfold res_events. induction h as [|l t IH]; intros idx mid st args; simpl.
+  unfold res_events. induction h as [|l t IH]; intros idx mid st args Hrf; simpl.
   - destruct args; constructor.
-  - destruct (l_def l); [|apply IH].
+  - simpl in Hrf. apply andb_true_iff in Hrf. destruct Hrf as [Hl Hrf].
+    destruct (l_rec l); [discriminate|]. cbn [opt_is app].
+    destruct (l_def l); [|apply IH; exact Hrf].
     destruct (arity_ok l args); [|constructor].
     destruct (opt_is (l_raise l) (fun k => steps st =? k)).
     { constructor; [left; reflexivity|constructor]. }
     destruct (l_super l).
-    + specialize (IH (idx + 1) mid st (if l_fwd l then args else [])).
-      destruct (call_chain t (idx + 1) mid st (if l_fwd l then args else [])) as [[st1 evs] r].
+    + specialize (IH (idx + 1) mid st (if l_fwd l then args else []) Hrf).
+      destruct (call_chain rec t (idx + 1) mid st (if l_fwd l then args else [])) as [[st1 evs] r].
       cbn [fst snd] in IH.
       assert (Forall (fun e => e_args e = args \/ e_args e = []) evs) as IH'.
       { eapply Forall_impl; [|exact IH]. intros e [H|H]; [|right; exact H].
@@ -148,21 +161,26 @@ Proof.
 Qed.
 
 (* ---------- Model._wrapped_step ---------- *)
-Lemma wrapped_exactly_one h mid st args :
-  steps (res_state (wrapped_step h mid st args)) = steps st + 1.
-Proof. unfold wrapped_step. rewrite chain_steps. reflexivity. Qed.
+Lemma wrapped_step_unfold h mid st args :
+  wrapped_step h mid st args =
+  call_chain (fun s => wrapped (pred CALL_FUEL) h mid s []) h 0 mid (incr st) args.
+Proof. reflexivity. Qed.
 
-Lemma wrapped_before_user h mid st args :
+Lemma wrapped_exactly_one h mid st args : rec_free h = true ->
+  steps (res_state (wrapped_step h mid st args)) = steps st + 1.
+Proof. intros Hrf. rewrite wrapped_step_unfold, chain_steps by exact Hrf. reflexivity. Qed.
+
+Lemma wrapped_before_user h mid st args : rec_free h = true ->
   Forall (fun e => e_seen e = steps st + 1 /\ e_inst e = mid) (res_events (wrapped_step h mid st args)).
 Proof.
-  unfold wrapped_step. eapply Forall_impl; [|apply chain_events].
+  intros Hrf. rewrite wrapped_step_unfold. eapply Forall_impl; [|apply chain_events; exact Hrf].
   intros e [H1 [H2 _]]. split; assumption.
 Qed.
 
-Lemma wrapped_levels h mid st args :
+Lemma wrapped_levels h mid st args : rec_free h = true ->
   exists rest, super_chain h 0 = map e_lvl (res_events (wrapped_step h mid st args)) ++ rest /\
                (res_status (wrapped_step h mid st args) = Ok -> rest = []).
-Proof. unfold wrapped_step. apply chain_levels. Qed.
+Proof. intros Hrf. rewrite wrapped_step_unfold. apply chain_levels. exact Hrf. Qed.
 
 Lemma NoDup_app_l {A : Type} (l r : list A) : NoDup (l ++ r) -> NoDup l.
 Proof.
@@ -170,9 +188,10 @@ Proof.
   constructor; [|apply IH; exact Hs]. intros Hin. apply Hy. apply in_or_app. left. exact Hin.
 Qed.
 
-Lemma wrapped_each_once h mid st args : NoDup (map e_lvl (res_events (wrapped_step h mid st args))).
+Lemma wrapped_each_once h mid st args : rec_free h = true ->
+  NoDup (map e_lvl (res_events (wrapped_step h mid st args))).
 Proof.
-  destruct (wrapped_levels h mid st args) as [rest [H _]].
+  intros Hrf. destruct (wrapped_levels h mid st args Hrf) as [rest [H _]].
   pose proof (super_chain_NoDup h 0) as Hn. rewrite H in Hn. eapply NoDup_app_l. exact Hn.
 Qed.
 
@@ -181,8 +200,8 @@ Lemma wrapped_args h mid st args i l :
   exists e rest, res_events (wrapped_step h mid st args) = e :: rest /\
     e_lvl e = i /\ e_args e = args /\ e_seen e = steps st + 1 /\ e_run e = running st.
 Proof.
-  intros Hr Ha. unfold wrapped_step.
-  pose proof (chain_head h 0 mid {| steps := steps st + 1; running := running st |} args i l Hr) as H.
+  intros Hr Ha. rewrite wrapped_step_unfold.
+  pose proof (chain_head (fun s => wrapped (pred CALL_FUEL) h mid s []) h 0 mid (incr st) args i l Hr) as H.
   rewrite Ha in H. destruct H as [e [rest [H1 [H2 [H3 [H4 [H5 _]]]]]]]. exists e, rest. auto.
 Qed.
 
@@ -191,10 +210,10 @@ Lemma wrapped_rejected h mid st args i l :
   resolve h 0 = Some (i, l) -> arity_ok l args = false ->
   wrapped_step h mid st args = ({| steps := steps st + 1; running := running st |}, [], ErrType).
 Proof.
-  intros Hr Ha. unfold wrapped_step.
-  pose proof (chain_head h 0 mid {| steps := steps st + 1; running := running st |} args i l Hr) as H.
+  intros Hr Ha. rewrite wrapped_step_unfold.
+  pose proof (chain_head (fun s => wrapped (pred CALL_FUEL) h mid s []) h 0 mid (incr st) args i l Hr) as H.
   rewrite Ha in H. destruct H as [H1 [H2 H3]].
-  destruct (call_chain h 0 mid {| steps := steps st + 1; running := running st |} args) as [[s e] r].
+  destruct (call_chain (fun s => wrapped (pred CALL_FUEL) h mid s []) h 0 mid (incr st) args) as [[s e] r].
   unfold res_events, res_status, res_state in *. cbn [fst snd] in *. subst. reflexivity.
 Qed.
 
@@ -202,7 +221,7 @@ Qed.
 Lemma wrapped_not_overridden h mid st :
   resolve h 0 = None ->
   wrapped_step h mid st [] = ({| steps := steps st + 1; running := running st |}, [], Ok).
-Proof. intros Hr. unfold wrapped_step. rewrite (chain_unresolved h 0 mid _ [] Hr). reflexivity. Qed.
+Proof. intros Hr. rewrite wrapped_step_unfold. rewrite (chain_unresolved _ h 0 mid _ [] Hr). reflexivity. Qed.
 
 (* ---------- Model.run_model ---------- *)
 (* n consecutive successful no-argument calls, each started while running was true *)
@@ -212,19 +231,20 @@ Inductive steps_while_running (h : hierarchy) (mid : Z) : mstate -> nat -> mstat
     running st = true -> wrapped_step h mid st [] = (st1, ev, Ok) ->
     steps_while_running h mid st1 n st2 -> steps_while_running h mid st (S n) st2.
 
-Lemma swr_steps h mid st n st' : steps_while_running h mid st n st' -> steps st' = steps st + Z.of_nat n.
+Lemma swr_steps h mid st n st' : rec_free h = true ->
+  steps_while_running h mid st n st' -> steps st' = steps st + Z.of_nat n.
 Proof.
-  intros H. induction H as [st|st st1 ev st2 n Hr Hw _ IH]; [simpl; lia|].
-  pose proof (wrapped_exactly_one h mid st []) as H1. rewrite Hw in H1. unfold res_state in H1. cbn [fst] in H1.
+  intros Hrf H. induction H as [st|st st1 ev st2 n Hr Hw _ IH]; [simpl; lia|].
+  pose proof (wrapped_exactly_one h mid st [] Hrf) as H1. rewrite Hw in H1. unfold res_state in H1. cbn [fst] in H1.
   lia.
 Qed.
 
-Lemma run_model_ok h mid fuel : forall st st' evs,
+Lemma run_model_ok h mid fuel : rec_free h = true -> forall st st' evs,
   run_model fuel h mid st = (st', evs, Ok) ->
   running st' = false /\
   exists n, (n <= fuel)%nat /\ steps_while_running h mid st n st' /\ steps st' = steps st + Z.of_nat n.
 Proof.
-  induction fuel as [|f IH]; intros st st' evs H; simpl in H.
+  intros Hrf. induction fuel as [|f IH]; intros st st' evs H; simpl in H.
   - destruct (running st) eqn:Er; [discriminate|]. inversion H; subst.
     split; [exact Er|]. exists 0%nat. split; [lia|]. split; [apply swr_done|simpl; lia].
   - destruct (running st) eqn:Er.
@@ -234,7 +254,7 @@ Proof.
       destruct (IH st1 st' ev2 Erm) as [H1 [n [Hn [Hs He]]]].
       split; [exact H1|]. exists (S n). split; [lia|].
       assert (steps_while_running h mid st (S n) st') as Hs' by (eapply swr_step; eassumption).
-      split; [exact Hs'|]. eapply swr_steps. exact Hs'.
+      split; [exact Hs'|]. eapply swr_steps; [exact Hrf|exact Hs'].
     + inversion H; subst. split; [exact Er|]. exists 0%nat. split; [lia|]. split; [apply swr_done|simpl; lia].
 Qed.
 
@@ -242,17 +262,17 @@ Lemma run_model_not_running h mid fuel st : running st = false -> run_model fuel
 Proof. intros H. destruct fuel; simpl; rewrite H; reflexivity. Qed.
 
 (* a loop ended by an exception made n complete calls and one that raised; that one counts too *)
-Lemma run_model_err h mid fuel : forall st st' evs r,
+Lemma run_model_err h mid fuel : rec_free h = true -> forall st st' evs r,
   run_model fuel h mid st = (st', evs, r) -> r = ErrType \/ r = ErrBoom ->
   exists n st1 ev, steps_while_running h mid st n st1 /\ running st1 = true /\
                    wrapped_step h mid st1 [] = (st', ev, r) /\ steps st' = steps st + Z.of_nat n + 1.
 Proof.
-  induction fuel as [|f IH]; intros st st' evs r H Hr; simpl in H.
+  intros Hrf. induction fuel as [|f IH]; intros st st' evs r H Hr; simpl in H.
   - destruct (running st); inversion H; subst; destruct Hr; discriminate.
   - destruct (running st) eqn:Er.
     2:{ inversion H; subst; destruct Hr; discriminate. }
     destruct (wrapped_step h mid st []) as [[st1 ev1] r1] eqn:Ew.
-    pose proof (wrapped_exactly_one h mid st []) as H1. rewrite Ew in H1. unfold res_state in H1. cbn [fst] in H1.
+    pose proof (wrapped_exactly_one h mid st [] Hrf) as H1. rewrite Ew in H1. unfold res_state in H1. cbn [fst] in H1.
     destruct r1.
     + destruct (run_model f h mid st1) as [[st2 ev2] r2] eqn:Erm. inversion H; subst.
       destruct (IH st1 st' ev2 r Erm Hr) as [n [sta [ev [Hs [Hra [Hw He]]]]]].
@@ -262,33 +282,34 @@ Proof.
     + inversion H; subst. destruct Hr; discriminate.
 Qed.
 
-Lemma run_model_mono h mid fuel : forall st, steps st <= steps (res_state (run_model fuel h mid st)).
+Lemma run_model_mono h mid fuel : rec_free h = true ->
+  forall st, steps st <= steps (res_state (run_model fuel h mid st)).
 Proof.
-  unfold res_state. induction fuel as [|f IH]; intros st; simpl.
+  intros Hrf. unfold res_state. induction fuel as [|f IH]; intros st; simpl.
   - destruct (running st); simpl; lia.
   - destruct (running st); [|simpl; lia].
     destruct (wrapped_step h mid st []) as [[st1 ev1] r] eqn:Ew.
-    pose proof (wrapped_exactly_one h mid st []) as H1. rewrite Ew in H1. unfold res_state in H1. cbn [fst] in H1.
+    pose proof (wrapped_exactly_one h mid st [] Hrf) as H1. rewrite Ew in H1. unfold res_state in H1. cbn [fst] in H1.
     destruct r; cbn [fst]; try lia.
     specialize (IH st1). destruct (run_model f h mid st1) as [[st2 ev2] r2]. cbn [fst] in *. lia.
 Qed.
 
 (* every body run during run_model sees a counter value strictly above the start and at most the final one *)
-Lemma run_model_events h mid fuel : forall st,
+Lemma run_model_events h mid fuel : rec_free h = true -> forall st,
   Forall (fun e => steps st < e_seen e <= steps (res_state (run_model fuel h mid st)) /\ e_inst e = mid)
          (res_events (run_model fuel h mid st)).
 Proof.
-  unfold res_state, res_events. induction fuel as [|f IH]; intros st; simpl.
+  intros Hrf. unfold res_state, res_events. induction fuel as [|f IH]; intros st; simpl.
   - destruct (running st); constructor.
   - destruct (running st); [|constructor].
     destruct (wrapped_step h mid st []) as [[st1 ev1] r] eqn:Ew.
-    pose proof (wrapped_exactly_one h mid st []) as H1. rewrite Ew in H1. unfold res_state in H1. cbn [fst] in H1.
-    pose proof (wrapped_before_user h mid st []) as H2. rewrite Ew in H2. unfold res_events in H2. cbn [fst snd] in H2.
+    pose proof (wrapped_exactly_one h mid st [] Hrf) as H1. rewrite Ew in H1. unfold res_state in H1. cbn [fst] in H1.
+    pose proof (wrapped_before_user h mid st [] Hrf) as H2. rewrite Ew in H2. unfold res_events in H2. cbn [fst snd] in H2.
     destruct r; cbn [fst snd];
       try (eapply Forall_impl; [|exact H2]; intros e [Ha Hb]; split; [lia|exact Hb]).
     specialize (IH st1). destruct (run_model f h mid st1) as [[st2 ev2] r2] eqn:Erm. cbn [fst snd] in *.
     assert (steps st1 <= steps st2) as Hle.
-    { pose proof (run_model_mono h mid f st1) as Hm. rewrite Erm in Hm. exact Hm. }
+    { pose proof (run_model_mono h mid f Hrf st1) as Hm. rewrite Erm in Hm. exact Hm. }
     apply Forall_app. split.
     + eapply Forall_impl; [|exact H2]. intros e [Ha Hb]. split; [lia|exact Hb].
     + eapply Forall_impl; [|exact IH]. intros e [Ha Hb]. split; [lia|exact Hb].
@@ -410,25 +431,188 @@ Proof. intros Hc Ha. rewrite (step_one w o i x h Hc), Ha. reflexivity. Qed.
 Definition is_step_at (i : Z) (o : op) : bool := match o with Step j _ => j =? i | _ => false end.
 Definition is_run (o : op) : bool := match o with RunModel _ _ => true | _ => false end.
 
-Lemma fold_count h i ops : forall st,
+Lemma fold_count h i ops : rec_free h = true -> forall st,
   forallb (fun o => negb (is_run o)) ops = true ->
   steps (fold_left (inst_step h i) (filter (aimed_at i) ops) st) =
   steps st + Z.of_nat (length (filter (is_step_at i) ops)).
 Proof.
-  induction ops as [|o t IH]; intros st Hn; simpl; [lia|].
+  intros Hrf. induction ops as [|o t IH]; intros st Hn; simpl; [lia|].
   simpl in Hn. apply andb_true_iff in Hn. destruct Hn as [Ho Ht].
   destruct o as [c|j args|j fuel|j b]; simpl in *; try discriminate.
   - apply IH. exact Ht.
   - destruct (j =? i); simpl.
-    + rewrite IH by exact Ht. rewrite wrapped_exactly_one. lia.
+    + rewrite IH by exact Ht. rewrite wrapped_exactly_one by exact Hrf. lia.
     + apply IH. exact Ht.
   - destruct (j =? i); simpl; rewrite IH by exact Ht; simpl; lia.
 Qed.
 
 Theorem steps_count_calls ops w i x h :
-  class_of w i = Some (x, h) -> forallb (fun o => negb (is_run o)) ops = true ->
+  class_of w i = Some (x, h) -> rec_free h = true -> forallb (fun o => negb (is_run o)) ops = true ->
   exists x', class_of (final w ops) i = Some (x', h) /\
              steps (i_st x') = steps (i_st x) + Z.of_nat (length (filter (is_step_at i) ops)).
 Proof.
-  intros Hc Hn. eexists. split; [apply projection; exact Hc|]. cbn [i_st]. apply fold_count. exact Hn.
+  intros Hc Hrf Hn. eexists. split; [apply projection; exact Hc|]. cbn [i_st]. apply fold_count; assumption.
+Qed.
+
+(* ====================================================================================== *)
+(* Recursive self.step() inside user code: every nested call goes through the wrapper and  *)
+(* counts exactly once, before the user code of that call runs.                            *)
+(* ====================================================================================== *)
+Definition zrange (lo hi : Z) : list Z :=
+  map (fun i => lo + Z.of_nat i) (seq 0 (Z.to_nat (hi - lo + 1))).
+
+Lemma zrange_empty lo : zrange (lo + 1) lo = [].
+Proof. unfold zrange. replace (Z.to_nat (lo - (lo + 1) + 1)) with 0%nat by lia. reflexivity. Qed.
+
+Lemma zrange_cons lo hi : lo <= hi -> lo :: zrange (lo + 1) hi = zrange lo hi.
+Proof.
+  intros H. unfold zrange. replace (Z.to_nat (hi - lo + 1)) with (S (Z.to_nat (hi - (lo + 1) + 1))) by lia.
+  simpl. f_equal; [lia|]. rewrite <- seq_shift, map_map. apply map_ext. intros a. lia.
+Qed.
+
+Lemma zrange_app lo mid hi : lo <= mid + 1 -> mid <= hi -> zrange lo mid ++ zrange (mid + 1) hi = zrange lo hi.
+Proof.
+  intros H1 H2. unfold zrange.
+  replace (Z.to_nat (hi - lo + 1)) with (Z.to_nat (mid - lo + 1) + Z.to_nat (hi - (mid + 1) + 1))%nat by lia.
+  rewrite seq_app, map_app. f_equal.
+  set (a := Z.to_nat (mid - lo + 1)). set (n := Z.to_nat (hi - (mid + 1) + 1)).
+  assert (forall k s, map (fun i => mid + 1 + Z.of_nat i) (seq s k) =
+                      map (fun i => lo + Z.of_nat i) (seq (s + a) k)) as Hs.
+  { induction k as [|k IH]; intros s; simpl; [reflexivity|]. f_equal; [unfold a; lia|]. apply (IH (S s)). }
+  exact (Hs n 0%nat).
+Qed.
+
+(* the values of self.steps seen by the bodies of level i, in execution order *)
+Definition tops (i : Z) (evs : list event) : list Z := map e_seen (filter (fun e => e_lvl e =? i) evs).
+
+Lemma tops_app i a b : tops i (a ++ b) = tops i a ++ tops i b.
+Proof. unfold tops. rewrite filter_app, map_app. reflexivity. Qed.
+
+(* "between counter value s0 and the end, the level-i bodies saw s0+1, s0+2, ..., final value - each once" *)
+Definition counted (i : Z) (s0 : Z) (x : mstate * list event * status) : Prop :=
+  res_status x <> OutOfFuel ->
+  tops i (res_events x) = zrange (s0 + 1) (steps (res_state x)) /\ s0 <= steps (res_state x).
+
+Lemma resolve_ge h : forall idx i l, resolve h idx = Some (i, l) -> idx <= i.
+Proof.
+  induction h as [|l0 t IH]; intros idx i l H; simpl in H; [discriminate|].
+  destruct (l_def l0); [inversion H; lia|]. apply IH in H. lia.
+Qed.
+
+Ltac fin_empty := intros _; rewrite zrange_empty; split; [reflexivity|lia].
+
+Section Recursion.
+  Variables (rec : mstate -> mstate * list event * status) (i : Z).
+  Hypothesis Hrec : forall st, counted i (steps st) (rec st).
+
+  (* a part of the chain strictly below level i: its own bodies are not level-i bodies; nested calls are counted *)
+  Lemma chain_counted_below h : forall idx mid st args, i < idx ->
+    counted i (steps st) (call_chain rec h idx mid st args).
+  Proof.
+    unfold counted, res_status, res_events, res_state.
+    induction h as [|l t IH]; intros idx mid st args Hlt; simpl.
+    - destruct args; cbn [fst snd]; fin_empty.
+    - destruct (l_def l); [|apply IH; lia].
+      destruct (arity_ok l args); [|cbn [fst snd]; fin_empty].
+      assert (idx =? i = false) as Eni by (apply Z.eqb_neq; lia).
+      destruct (opt_is (l_raise l) (fun k => steps st =? k)).
+      { cbn [fst snd]. intros _. unfold tops. simpl. rewrite Eni. simpl. rewrite zrange_empty. split; [reflexivity|lia]. }
+      assert (counted i (steps st) (if opt_is (l_rec l) (fun k => steps st <? k) then rec st else (st, [], Ok))) as Hr.
+      { destruct (opt_is (l_rec l) (fun k => steps st <? k)); [apply Hrec|].
+        unfold counted, res_status, res_events, res_state. cbn [fst snd]. fin_empty. }
+      destruct (if opt_is (l_rec l) (fun k => steps st <? k) then rec st else (st, [], Ok)) as [[st0 evr] rr].
+      unfold counted, res_status, res_events, res_state in Hr. cbn [fst snd] in Hr.
+      assert (forall evs', tops i ({| e_inst := mid; e_lvl := idx; e_seen := steps st; e_run := running st; e_args := args |} :: evs') = tops i evs') as Hskip.
+      { intros evs'. unfold tops. simpl. rewrite Eni. reflexivity. }
+      destruct rr; cbn [fst snd]; try (intros Hs; rewrite Hskip; apply Hr; exact Hs).
+      destruct Hr as [Hr1 Hr2]; [discriminate|].
+      assert (counted i (steps st0)
+                (if l_super l then call_chain rec t (idx + 1) mid st0 (if l_fwd l then args else []) else (st0, [], Ok))) as Hsup.
+      { destruct (l_super l); [unfold counted, res_status, res_events, res_state; intros Hs; apply IH; [lia|exact Hs]|].
+        unfold counted, res_status, res_events, res_state. cbn [fst snd]. fin_empty. }
+      destruct (if l_super l then call_chain rec t (idx + 1) mid st0 (if l_fwd l then args else []) else (st0, [], Ok))
+        as [[st1 evs] r].
+      unfold counted, res_status, res_events, res_state in Hsup. cbn [fst snd] in Hsup.
+      assert (r <> OutOfFuel -> tops i ({| e_inst := mid; e_lvl := idx; e_seen := steps st; e_run := running st; e_args := args |} :: evr ++ evs)
+                                = zrange (steps st + 1) (steps st1) /\ steps st <= steps st1) as Hall.
+      { intros Hs. destruct (Hsup Hs) as [H1 H2]. rewrite Hskip, tops_app, Hr1, H1. split; [apply zrange_app; lia|lia]. }
+      destruct r; cbn [fst snd]; intros Hs; try (apply Hall; exact Hs).
+      destruct (opt_is (l_stop l) (fun k => steps st1 >=? k)); cbn [clear_running steps]; apply Hall; discriminate.
+  Qed.
+
+  (* from the class the MRO resolves (a variadic definer at level i): its own body is the first level-i body *)
+  Lemma chain_counted_resolved h : forall idx mid st args l,
+    resolve h idx = Some (i, l) -> l_arity l < 0 ->
+    counted i (steps st - 1) (call_chain rec h idx mid st args).
+  Proof.
+    unfold counted, res_status, res_events, res_state.
+    induction h as [|l0 t IH]; intros idx mid st args l Hres Har; simpl in Hres; [discriminate|]. simpl.
+    destruct (l_def l0); [|eapply IH; eassumption].
+    inversion Hres; subst idx l0.
+    assert (arity_ok l args = true) as -> by (unfold arity_ok; apply orb_true_iff; left; apply Z.ltb_lt; exact Har).
+    replace (steps st - 1 + 1) with (steps st) by lia.
+    assert (forall evs', tops i ({| e_inst := mid; e_lvl := i; e_seen := steps st; e_run := running st; e_args := args |} :: evs') = steps st :: tops i evs') as Htop.
+    { intros evs'. unfold tops. simpl. rewrite Z.eqb_refl. reflexivity. }
+    destruct (opt_is (l_raise l) (fun k => steps st =? k)).
+    { cbn [fst snd]. intros _. rewrite Htop. unfold tops at 1. simpl. rewrite <- (zrange_cons (steps st) (steps st)) by lia.
+      rewrite zrange_empty. split; [reflexivity|lia]. }
+    assert (counted i (steps st) (if opt_is (l_rec l) (fun k => steps st <? k) then rec st else (st, [], Ok))) as Hr.
+    { destruct (opt_is (l_rec l) (fun k => steps st <? k)); [apply Hrec|].
+      unfold counted, res_status, res_events, res_state. cbn [fst snd]. fin_empty. }
+    destruct (if opt_is (l_rec l) (fun k => steps st <? k) then rec st else (st, [], Ok)) as [[st0 evr] rr].
+    unfold counted, res_status, res_events, res_state in Hr. cbn [fst snd] in Hr.
+    assert (rr <> OutOfFuel -> tops i ({| e_inst := mid; e_lvl := i; e_seen := steps st; e_run := running st; e_args := args |} :: evr)
+                               = zrange (steps st) (steps st0) /\ steps st - 1 <= steps st0) as Hpart.
+    { intros Hs. destruct (Hr Hs) as [H1 H2]. rewrite Htop, H1. split; [apply zrange_cons; lia|lia]. }
+    destruct rr; cbn [fst snd]; try (intros Hs; apply Hpart; exact Hs).
+    destruct Hr as [Hr1 Hr2]; [discriminate|].
+    assert (counted i (steps st0)
+              (if l_super l then call_chain rec t (i + 1) mid st0 (if l_fwd l then args else []) else (st0, [], Ok))) as Hsup.
+    { destruct (l_super l); [apply chain_counted_below; lia|].
+      unfold counted, res_status, res_events, res_state. cbn [fst snd]. fin_empty. }
+    destruct (if l_super l then call_chain rec t (i + 1) mid st0 (if l_fwd l then args else []) else (st0, [], Ok))
+      as [[st1 evs] r].
+    unfold counted, res_status, res_events, res_state in Hsup. cbn [fst snd] in Hsup.
+    assert (r <> OutOfFuel -> tops i ({| e_inst := mid; e_lvl := i; e_seen := steps st; e_run := running st; e_args := args |} :: evr ++ evs)
+                              = zrange (steps st) (steps st1) /\ steps st - 1 <= steps st1) as Hall.
+    { intros Hs. destruct (Hsup Hs) as [H1 H2]. rewrite Htop, tops_app, Hr1, H1.
+      rewrite (zrange_app (steps st + 1) (steps st0) (steps st1)) by lia. split; [apply zrange_cons; lia|lia]. }
+    destruct r; cbn [fst snd]; intros Hs; try (apply Hall; exact Hs).
+    destruct (opt_is (l_stop l) (fun k => steps st1 >=? k)); cbn [clear_running steps]; apply Hall; discriminate.
+  Qed.
+End Recursion.
+
+(* one call of instance.step( *args), nested self.step() calls to any depth included: the bodies of the resolved
+   (variadic) user step saw steps+1, steps+2, ..., final steps - so every call, outer or nested, was counted
+   exactly once and before its user code ran, and the counter advanced by exactly the number of calls *)
+Theorem wrapped_counted fuel : forall h mid i l, resolve h 0 = Some (i, l) -> l_arity l < 0 ->
+  forall st args, counted i (steps st) (wrapped fuel h mid st args).
+Proof.
+  induction fuel as [|f IH]; intros h mid i l Hres Har st args.
+  - unfold counted, res_status. simpl. intros H. exfalso. apply H. reflexivity.
+  - simpl. pose proof (chain_counted_resolved (fun s => wrapped f h mid s []) i
+                         (fun s => IH h mid i l Hres Har s []) h 0 mid (incr st) args l Hres Har) as H.
+    replace (steps (incr st) - 1) with (steps st) in H by (simpl; lia). exact H.
+Qed.
+
+Corollary wrapped_step_counted h mid i l st args :
+  resolve h 0 = Some (i, l) -> l_arity l < 0 ->
+  res_status (wrapped_step h mid st args) <> OutOfFuel ->
+  tops i (res_events (wrapped_step h mid st args)) = zrange (steps st + 1) (steps (res_state (wrapped_step h mid st args))) /\
+  steps st + 1 <= steps (res_state (wrapped_step h mid st args)) /\
+  steps (res_state (wrapped_step h mid st args)) = steps st + Z.of_nat (length (tops i (res_events (wrapped_step h mid st args)))).
+Proof.
+  intros Hres Har Hs. destruct (wrapped_counted CALL_FUEL h mid i l Hres Har st args Hs) as [H1 H2].
+  fold (wrapped_step h mid st args) in H1, H2.
+  assert (steps st + 1 <= steps (res_state (wrapped_step h mid st args))) as H3.
+  { pose proof (chain_head (fun s => wrapped (pred CALL_FUEL) h mid s []) h 0 mid (incr st) args i l Hres) as Hh.
+    assert (arity_ok l args = true) as Ea by (unfold arity_ok; apply orb_true_iff; left; apply Z.ltb_lt; exact Har).
+    rewrite Ea in Hh. destruct Hh as [e [rest [He [Hl [_ [Hseen _]]]]]].
+    rewrite <- wrapped_step_unfold in He.
+    destruct (Z_le_gt_dec (steps st + 1) (steps (res_state (wrapped_step h mid st args)))) as [Hle|Hgt]; [exact Hle|].
+    exfalso. rewrite He in H1. unfold tops in H1. simpl in H1. rewrite Hl, Z.eqb_refl in H1. simpl in H1.
+    unfold zrange in H1. replace (Z.to_nat (steps (res_state (wrapped_step h mid st args)) - (steps st + 1) + 1)) with 0%nat in H1 by lia.
+    discriminate. }
+  split; [exact H1|]. split; [exact H3|].
+  rewrite H1. unfold zrange. rewrite map_length, seq_length. lia.
 Qed.
